@@ -764,3 +764,40 @@ def close_replay(ctx, c, want):
         if row['k'] == n['k'] and any(k in want for k in row['kinds']):
             print('REPRODUCED:', row['verdict']); bad = True
     return 1 if bad else 0
+
+
+# ------------------------------------------------------------------------------------------
+# every signal number through the iterators (harness/src/bin/p_allsigs.rs)
+def allsigs_probe(ctx, want):
+    """want: subset of ('lost', 'extra'); lost includes a consumer that never came back"""
+    if not ctx.harness(['p_allsigs']):
+        return
+    consts = common.measured_consts()
+    forb = {consts[n] for n in ('SIGKILL', 'SIGSTOP', 'SIGILL', 'SIGFPE', 'SIGSEGV')}
+    nums = list(range(1, 65))
+    rc, out, _ = common.sh([common.bin_path('p_allsigs')] + [str(n) for n in nums], timeout=600)
+    rows = [l.split() for l in out.split('\n') if l.startswith('A ')]
+    ctx.correspondence('all-signal-numbers probe ran (p_allsigs)', rc == 0 and len(rows) == 2 * len(nums), out[-300:] if rc else None)
+    unexpected = []
+    for r in rows:
+        if len(r) != 4:
+            continue
+        sig, exf, outcome = int(r[1]), r[2], r[3]
+        ctx.evaluations += 1
+        name = '%s watching signal %d' % ({'o': 'Signals', 'r': 'SignalsInfo<WithRawSiginfo>'}[exf], sig)
+        if sig in forb or sig in (32, 33):
+            if not outcome.startswith('refused'):
+                unexpected.append((sig, exf, outcome))
+            continue
+        ctx.distinct.add(('allsigs', sig, exf))
+        kind = 'lost' if (outcome == 'lost' or outcome.startswith('died')) else ('extra' if outcome.startswith('extra') else None)
+        if outcome.startswith('refused'):
+            unexpected.append((sig, exf, outcome))
+        elif kind in want:
+            ctx.violation({'monitor': 'allsigs-' + kind, 'sig': sig, 'exf': exf},
+                          '%s: raise(%d) then wait(): %s' % (name, sig, {'lost': 'the delivery was never reported (%s)' % outcome, 'extra': 'yielded %s' % outcome[6:]}[kind]),
+                          {'probe': 'p_allsigs', 'row': r, 'replay': 'harness/target/debug/p_allsigs %d' % sig})
+        elif outcome == 'ok':
+            ctx.traces += 1
+    ctx.correspondence('every catchable signal number 1..64 is accepted by the iterators and the refused ones are refused', not unexpected, unexpected[:5])
+    ctx.coverage['all_signal_numbers'] = len(rows)
